@@ -297,6 +297,15 @@ def write_evidence(prop, tier, seed, obls, results, cmds, extraction, wall, head
         exhaustive=False,
     )
     level = "proof" if proof else "other"
+    # report at the level claimed in MANIFEST.json (a property claimed as `other` because its deciding obligations are
+    # bounded stand-ins stays `other` even if a few of its obligations are complete proofs)
+    try:
+        man = json.loads(read(os.path.join(VERIF, "MANIFEST.json")))
+        claimed = [c["level_claimed"]["category"] for c in man.get("checks", []) if c["property_id"] == prop]
+        if claimed and (claimed[0] == "other" or (claimed[0] == "proof" and proof)):
+            level = claimed[0]
+    except Exception:
+        pass
     cov["explanation"] = (
         "Contract obligations on real rosu-pp functions. `obligations/discharged` count only obligations whose harness is a "
         "complete proof for its stated domain (Verus: unbounded; Kani: loop-free or unwinding-certified full-domain). "
